@@ -281,7 +281,7 @@ def build_goto(inst, tmp, extra_defs):
     srcs = [os.path.join(HARNESS, inst.harness)]
     if not inst.no_models:
         srcs.append(os.path.join(HARNESS, "lib", "libc_models.c"))
-    srcs += [os.path.join(REPO, u) for u in inst.units]
+    srcs += [os.path.join(VERIF, u[6:]) if u.startswith("verif:") else os.path.join(REPO, u) for u in inst.units]
     cmd = ["goto-cc"] + BASE_DEFS + include_flags() + inst.cflags + \
         def_flags(inst.defines) + extra_defs + \
         ["--function", "harness", "-o", gb] + srcs
@@ -517,6 +517,8 @@ def check_instance(prop, inst, tmp, tier, kf_exclude=(), kf_confirm=None,
                 label, r["rc"], r["out"][-300:], r["err"][-300:])
     # ---- real failures: replay each distinct one
     seen = set()
+    replay_cache = {}
+    max_replays = int(os.environ.get("VP_MAX_REPLAYS", "12"))
     for p in failed_real + failed_unwind:
         d = p.get("description", "")
         key = (d, p.get("sourceLocation", {}).get("function"),
@@ -554,12 +556,29 @@ def check_instance(prop, inst, tmp, tier, kf_exclude=(), kf_confirm=None,
             f.write("/* VP-EXTRA: %s */\n" % " ".join(extra))
             f.write("#define VP_REPLAY_INIT %s\n" % init.replace("\n", " \\\n"))
         v["replay"] = rp
-        exe, berr = build_replay(inst, itmp, rp, extra, "v" + h)
-        if exe is None:
-            v["detail"] = berr
+        if init in replay_cache:
+            r = replay_cache[init]
+        elif len(replay_cache) >= max_replays:
+            # many failing properties usually share one root cause: the first
+            # max_replays distinct inputs are re-executed, the rest are listed
+            v["detail"] = "replay: not run (cap of %d distinct inputs per instance reached)" % max_replays
+            v["reproduced"] = any(x["reproduced"] for x in o["violations"])
+            v["capped"] = True
+            try:
+                os.remove(rp)
+            except Exception:
+                pass
+            v["replay"] = next((x["replay"] for x in o["violations"] if x["reproduced"]), None)
             o["violations"].append(v)
             continue
-        r = run_replay(inst, exe)
+        else:
+            exe, berr = build_replay(inst, itmp, rp, extra, "v" + h)
+            if exe is None:
+                v["detail"] = berr
+                o["violations"].append(v)
+                continue
+            r = run_replay(inst, exe)
+            replay_cache[init] = r
         if r["assume_failed"]:
             v["detail"] = "replay: trace does not satisfy harness assumptions"
         elif r["violations"] or r["sanitizer"] or r["signal"]:
